@@ -561,7 +561,7 @@ PROPS = {
     "C12": dict(storage=True),
     "C13": dict(storage=True),
     "C15": dict(fams=[("core", 2), ("crash", 2), ("snap", 2), ("member5", 2)], corpus=["core", "crash", "snap", "member"], mc="MC_heal", mc_deep="MC_heal_deep", mc_module="Heal", healstates=True),
-    "C16": dict(fams=[("healthy", 5), ("core", 2)], corpus=["healthy"], mc="MC_async3"),
+    "C16": dict(fams=[("healthy", 5), ("core", 2)], corpus=["healthy"], mc="MC_async3", mc_deep="MC_healthy", mc_deep_module="RaftHealthy"),
     "C17": dict(fams=[("lease", 6)], corpus=["lease"], mc="MC_timed", mc_module="RaftTimed"),
     "C18": dict(fams=[("core", 1)], corpus=["api"], api=True, mc=None),
 }
@@ -624,8 +624,10 @@ def run_check(prop, tier, seed, keep=False):
     mcname = spec.get("mc_deep") if tier == "thorough" and spec.get("mc_deep") else spec.get("mc")
     if mcname and os.path.exists(os.path.join(driver.SPEC, mcname + ".cfg")) and not os.environ.get("VERIF_NOMC"):
         mcmod = spec.get("mc_module", "MC_core3")
+        if tier == "thorough" and spec.get("mc_deep") and spec.get("mc_deep_module"):
+            mcmod = spec["mc_deep_module"]
         mc_pool = ThreadPoolExecutor(max_workers=1)
-        mc_future = mc_pool.submit(driver.model_check, mcname, workdir, TIER[tier]["mc_timeout"], max(2, driver.NPROC // 2), ("Raft.tla",), None, 0, mcmod)
+        mc_future = mc_pool.submit(driver.model_check, mcname, workdir, TIER[tier]["mc_timeout"], max(2, driver.NPROC // 2), ("Raft.tla", "RaftTimed.tla"), None, 0, mcmod)
     scs = gen_scenarios(prop, tier, seed, workdir)
     by_name = {s["name"]: s for s in scs}
     traces, aborts, leaks = driver.run_jobs(scs, workdir, seed)
